@@ -67,6 +67,7 @@ enum ABTI_verif_event_kind {
     ABTI_VEV_XSTATE = 55,   /* a = xstream, b = state */
     ABTI_VEV_SCHED_STOP = 56, /* a = sched: main scheduler leaves its loop, b = reason */
     ABTI_VEV_RUN_TASK = 57, /* a = tasklet: function about to be called */
+    ABTI_VEV_NB_WHO = 58,   /* a = thread on whose behalf the preceding NB_ADD was made, b = pool, c = 1 inc / 2 dec */
     ABTI_VEV_USER = 1000    /* harness-defined kinds start here */
 };
 
